@@ -375,6 +375,32 @@ func (s *Server) routeFile(w http.ResponseWriter, r *http.Request) {
 	}
 }
 
+// checkPartNames makes sure the names a payload carries (file name, rename
+// target, predecessor) stay below the directories they are joined onto: they
+// have to be relative, must not climb out with ".." and must name something
+// (the stage appends its extensions to the joined path, so even a name that
+// cleans to "." would end up next to the source's directory, not in it).
+func checkPartNames(parts []sts.Binned) error {
+	for _, part := range parts {
+		if !isLocalName(part.GetName(), false) ||
+			!isLocalName(part.GetRenamed(), true) ||
+			!isLocalName(part.GetPrev(), true) {
+			return fmt.Errorf(
+				"invalid name in payload: %q (rename: %q, previous: %q)",
+				part.GetName(), part.GetRenamed(), part.GetPrev())
+		}
+	}
+	return nil
+}
+
+func isLocalName(name string, emptyOK bool) bool {
+	if name == "" {
+		return emptyOK
+	}
+	clean := filepath.Clean(name)
+	return clean != "." && filepath.IsLocal(clean)
+}
+
 func isSubpath(base, target string) bool {
 	base = strings.TrimRight(base, string(os.PathSeparator)) + string(os.PathSeparator)
 	target = strings.TrimRight(target, string(os.PathSeparator)) + string(os.PathSeparator)
@@ -535,6 +561,11 @@ func (s *Server) routeData(w http.ResponseWriter, r *http.Request) {
 		return
 	}
 	parts := decoder.GetParts()
+	if err = checkPartNames(parts); err != nil {
+		log.Error(err.Error())
+		w.WriteHeader(http.StatusBadRequest)
+		return
+	}
 	gateKeeper := s.getGateKeeper(r)
 	gateKeeper.Prepare(parts)
 	index := 0
@@ -611,6 +642,11 @@ func (s *Server) routeDataRecovery(w http.ResponseWriter, r *http.Request) {
 	}
 	gateKeeper := s.getGateKeeper(r)
 	parts := decoder.GetParts()
+	if err = checkPartNames(parts); err != nil {
+		log.Error(err.Error())
+		w.WriteHeader(http.StatusBadRequest)
+		return
+	}
 	n := gateKeeper.Received(parts)
 	log.Debug("STS data-recovery request complete:", "source=", source, "partsReceived=", n)
 	w.Header().Add(HeaderPartCount, strconv.Itoa(n))
